@@ -572,6 +572,12 @@ impl Sim {
 		self.with_account(w, acct, |s| s.finalize_inner(si))
 	}
 
+	/// finalize while `active` (not necessarily the account the send was made from) is the wallet's active account
+	pub fn finalize_under(&mut self, si: usize, active: usize) -> Result<(), String> {
+		let w = self.slates[si].initiator;
+		self.with_account(w, active, |s| s.finalize_inner(si))
+	}
+
 	fn finalize_inner(&mut self, si: usize) -> Result<(), String> {
 		let (w, acct, s2, late) = {
 			let s = &self.slates[si];
